@@ -1,7 +1,8 @@
 (* C07 - Component schemas mirror Go declarations, independent of how a type is used.
    Only statements here; every proof is [exact lemma].  The model functions are [reach],
    [component], [components] (Model/Schema.v); the correspondence check compares
-   [components] / [emit] with components.schemas of the documents the real CLI writes. *)
+   [components] / [emit] with components.schemas of the documents the real CLI writes.
+   The model describes gleece with the F9 fix (no usage-site validation through a $ref). *)
 From Gleece Require Import Base.Bytes Model.Project Model.Spec Model.Schema Proofs.SchemaProofs.
 From Coq Require Import String Permutation.
 
@@ -18,21 +19,21 @@ Proof. exact reach_spec. Qed.
 (* closure, both dialects, any universe (validators and same-named types included): the keys of
    components.schemas are the names of the reached declarations plus Rfc7807Error exactly when
    the plain error type is present, without repetition *)
-Theorem C07_closure_keys : forall v u t, components v u = Some t ->
-  (forall x, In x (keys t) <-> In x (expected_names u)) /\ NoDup (keys t).
+Theorem C07_closure_keys : forall v u,
+  (forall x, In x (keys (components v u)) <-> In x (expected_names u)) /\ NoDup (keys (components v u)).
 Proof. exact components_keys. Qed.
 
 (* one schema for each reached declaration and no others - components are keyed by the bare
    type name, so this needs the names to be unique *)
-Theorem C07_closure : forall v u t,
-  components v u = Some t -> unique_type_names u -> Permutation (keys t) (expected_names u).
+Theorem C07_closure : forall v u,
+  unique_type_names u -> Permutation (keys (components v u)) (expected_names u).
 Proof. exact components_closure. Qed.
 
 (* F16: without unique names two declarations (m1.User, m2.User) share one component *)
 Theorem C07_closure_refuted :
-  exists t, components V31 f16_u = Some t /\ universe_ok f16_u /\
-            List.length (reached_decls f16_u) = 2 /\ keys t = [s "User"; s "Rfc7807Error"] /\
-            ~ Permutation (keys t) (expected_names f16_u).
+  universe_ok f16_u /\ List.length (reached_decls f16_u) = 2 /\
+  keys (components V31 f16_u) = [s "User"; s "Rfc7807Error"] /\
+  ~ Permutation (keys (components V31 f16_u)) (expected_names f16_u).
 Proof. exact f16_refuted. Qed.
 
 (* shape: the schema of a declaration satisfies the per-kind clauses of the property text (oracle
@@ -52,47 +53,29 @@ Proof. exact f18_shape_refuted. Qed.
 Theorem C07_struct_shape : forall fs, struct_by_text fs (struct_comp fs) = true.
 Proof. exact struct_shape. Qed.
 
-(* each reached declaration is documented by the schema of its own declaration.
-   Full statement: forall v u t d, components v u = Some t -> unique_type_names u ->
-   In d (reached_decls u) -> lookup t (d_name d) = Some (component v d).
-   Holds for 3.1; in 3.0 a oneof/enum rule on a usage whose schema is a bare $ref writes through
-   the shared schema (F9), so 3.0 is proved for quiet universes (no such rule). *)
-Theorem C07_lookup_V31 : forall u t d,
-  components V31 u = Some t -> unique_type_names u -> In d (reached_decls u) ->
-  lookup t (d_name d) = Some (component V31 d).
-Proof. exact components_lookup_V31. Qed.
-
-Theorem C07_lookup_partial : forall v u t d,
-  quiet u = true -> components v u = Some t -> unique_type_names u -> In d (reached_decls u) ->
-  lookup t (d_name d) = Some (component v d).
+(* each reached declaration is documented by the schema of its own declaration, in both dialects
+   and whatever validators sit on its usage sites (since the F9 fix neither converter writes
+   through a $ref) *)
+Theorem C07_lookup : forall v u d,
+  unique_type_names u -> In d (reached_decls u) ->
+  lookup (components v u) (d_name d) = Some (component v d).
 Proof. exact components_lookup. Qed.
 
 (* non-interference: a declaration's component is the same in any two universes that contain the
    declaration (other routes, other usage sites, other validators) *)
-Theorem C07_noninterference_V31 : forall u u' t t' d,
-  components V31 u = Some t -> components V31 u' = Some t' ->
+Theorem C07_noninterference : forall v u u' d,
   unique_type_names u -> unique_type_names u' ->
   In d (reached_decls u) -> In d (reached_decls u') ->
-  lookup t (d_name d) = lookup t' (d_name d).
-Proof. exact noninterference_V31. Qed.
+  lookup (components v u) (d_name d) = lookup (components v u') (d_name d).
+Proof. exact noninterference. Qed.
 
-Theorem C07_noninterference_partial : forall v u u' t t' d,
-  quiet u = true -> quiet u' = true ->
-  components v u = Some t -> components v u' = Some t' ->
-  unique_type_names u -> unique_type_names u' ->
-  In d (reached_decls u) -> In d (reached_decls u') ->
-  lookup t (d_name d) = lookup t' (d_name d).
-Proof. exact noninterference_quiet. Qed.
-
-(* F9: in 3.0 a oneof tag on one field of type Color rewrites the shared Color component *)
-Theorem C07_noninterference_refuted :
-  exists t t', components V30 (f9_u "oneof=red blue") = Some t /\ components V30 (f9_u "") = Some t' /\
-    unique_type_names (f9_u "oneof=red blue") /\ unique_type_names (f9_u "") /\
-    In color_decl (reached_decls (f9_u "oneof=red blue")) /\ In color_decl (reached_decls (f9_u "")) /\
-    lookup t (s "Color") <> lookup t' (s "Color") /\
-    option_map k_enum (lookup t (s "Color")) = Some (Some [EStr (s "red"); EStr (s "blue")]) /\
-    components V31 (f9_u "oneof=red blue") = components V31 (f9_u "").
-Proof. exact f9_refuted. Qed.
+(* non-vacuity for non-interference, on the former F9 witness: a oneof tag on a field of type Color *)
+Example C07_noninterference_example :
+  unique_type_names (f9_u "oneof=red blue") /\ unique_type_names (f9_u "") /\
+  In color_decl (reached_decls (f9_u "oneof=red blue")) /\ In color_decl (reached_decls (f9_u "")) /\
+  option_map k_enum (lookup (components V30 (f9_u "oneof=red blue")) (s "Color")) =
+    Some (Some [EStr (s "red"); EStr (s "blue"); EStr (s "green")]).
+Proof. exact f9_example. Qed.
 
 (* the reachability the oracle prop_C07 computes (Kleene iteration over the declaration list, written
    from the property text) is the same set as the model's worklist closure *)
@@ -101,19 +84,20 @@ Theorem C07_oracle_reach : forall u k,
 Proof. exact reachable_set_reach. Qed.
 
 (* the property oracle accepts the components the model builds.
-   Full statement: forall v u t ops, components v u = Some t -> prop_C07 u (document with components t) = true.
-   False in general (F9: usage-site oneof in 3.0; F16: equal bare names; F18: 3.0 non-string enums;
-   F20: Rfc7807Error caused by a custom error type embedding error); proved under: no oneof/enum
-   rule on a $ref usage, unique bare names, every declaration declared once, the error special
-   only present through a plain-error route, and (3.0) only string enums *)
-Theorem C07_holds_partial : forall v u t ops,
-  components v u = Some t -> quiet u = true -> unique_type_names u -> NoDup (decl_keys u) ->
+   Full statement: forall v u ops, prop_C07 u (document with components (components v u)) = true.
+   False in general (F16: equal bare names; F18: 3.0 non-string enums; C07-rfc7807-without-plain-error: Rfc7807Error caused by
+   a custom error type embedding error); proved under: unique bare names, every declaration
+   declared once, the error special only present through a plain-error route, and (3.0) only
+   string enums *)
+Theorem C07_holds_partial : forall v u ops,
+  unique_type_names u -> NoDup (decl_keys u) ->
   plain_error_present u = returns_plain_error u -> enums_fit v u ->
-  prop_C07 u (mkDoc (dc_title (u_cfg u)) (dc_version (u_cfg u)) [dc_base_url (u_cfg u)] (dc_schemes (u_cfg u)) ops t) = true.
+  prop_C07 u (mkDoc (dc_title (u_cfg u)) (dc_version (u_cfg u)) [dc_base_url (u_cfg u)] (dc_schemes (u_cfg u)) ops
+                    (components v u)) = true.
 Proof. exact prop_C07_holds. Qed.
 
 Example C07_nonvacuous_holds :
-  components V31 demo_u <> None /\ quiet demo_u = true /\ unique_type_names demo_u /\ NoDup (decl_keys demo_u) /\
+  unique_type_names demo_u /\ NoDup (decl_keys demo_u) /\
   plain_error_present demo_u = returns_plain_error demo_u /\ enums_fit V31 demo_u /\ ~ enums_fit V30 demo_u.
 Proof. exact demo_holds_hyps. Qed.
 
@@ -127,7 +111,7 @@ Example C07_nonvacuous_reach :
 Proof. exact demo_reach. Qed.
 
 Example C07_nonvacuous_hyps :
-  well_linked V31 demo_u /\ unique_type_names demo_u /\ universe_ok demo_u /\ quiet demo_u = true /\
+  well_linked V31 demo_u /\ unique_type_names demo_u /\ universe_ok demo_u /\
   ~ well_linked_b V30 demo_u = true.
 Proof. exact demo_hyps. Qed.
 
@@ -150,11 +134,9 @@ Print Assumptions C07_closure_refuted.
 Print Assumptions C07_shape_partial.
 Print Assumptions C07_shape_refuted.
 Print Assumptions C07_struct_shape.
-Print Assumptions C07_lookup_V31.
-Print Assumptions C07_lookup_partial.
-Print Assumptions C07_noninterference_V31.
-Print Assumptions C07_noninterference_partial.
-Print Assumptions C07_noninterference_refuted.
+Print Assumptions C07_lookup.
+Print Assumptions C07_noninterference.
+Print Assumptions C07_noninterference_example.
 Print Assumptions C07_oracle_reach.
 Print Assumptions C07_holds_partial.
 Print Assumptions C07_nonvacuous_holds.
